@@ -51,6 +51,7 @@
 #define PID_ROOT                1
 #define PID_ZERO                0 // In containers, if attached from the host
 #define PID_UNKNOWN             -1
+#define PID_SELF                -2 // The calling process, read via /proc/self (its getpid() number may denote another process in the procfs instance mounted at /proc)
 
 #define PROC_PID_STATUS_KEY_NAME        "Name"
 #define PROC_PID_STATUS_KEY_PPID        "PPid"
@@ -86,7 +87,7 @@ static char* read_proc_property (int pid, const char * prop_name);
  */
 int snoopy_datasource_rpname (char * const resultBuf, size_t resultBufSize, __attribute__((unused)) char const * const arg)
 {
-    return get_rpname(getpid(), resultBuf, resultBufSize);
+    return get_rpname(PID_SELF, resultBuf, resultBufSize);
 }
 
 
@@ -104,7 +105,11 @@ static char* read_proc_property (int pid, const char * prop_name)
     char    returnValue[PROC_PID_STATUS_VAL_MAX_LENGTH_STR] = "";
 
     /* Open file or return */
-    snprintf(pid_file, ST_PATH_SIZE_MAX, "/proc/%d/status", pid);
+    if (PID_SELF == pid) {
+        snprintf(pid_file, ST_PATH_SIZE_MAX, "/proc/self/status");
+    } else {
+        snprintf(pid_file, ST_PATH_SIZE_MAX, "/proc/%d/status", pid);
+    }
     fp = fopen(pid_file, "re");
     if (NULL == fp) {
         return NULL;
